@@ -458,7 +458,7 @@ class _entry_state:
         self.c = c
 
     def __enter__(self):
-        self.skip = "pysnark.runtime" not in self.c.w.modules
+        self.skip = dict.__contains__(self.c.w.modules, "pysnark.runtime") is False or bool(self.c.entry.get("dummy"))
         if self.skip:
             self.c.now = dict(ie=False, guard=None, ONE=None)
             return
